@@ -1,7 +1,8 @@
 """Run plan of one property for vf.py (which harness, which sanitizer variants, budgets)."""
 from checks_common import three
 
-_main = three("c17_pages", [], scales=(0.6, 1.0, 2.0), mode="all")
+# thorough scales: at the quick scales all three variants were still running after 55 min on the loaded machine
+_main = [dict(r, scale_thorough=st) for r, st in zip(three("c17_pages", [], scales=(0.6, 1.0, 2.0), mode="all"), (0.15, 0.25, 0.6))]
 # Move-assignment of a pooled unique_ptr is undefined behaviour on the unchanged tree (known
 # finding C17-deleter-move-assign-no-return): own processes, the operation itself runs in a
 # forked child, so nothing it does can mask the other modes.
